@@ -433,6 +433,50 @@ Definition enc_EpochAcc (v : list bytes) : res bytes := enc_vector 8192 64 v.
 Definition dec_EpochAcc (buf : bytes) : res (list bytes) :=
   if negb (nlen buf =? 524288) then Err E_SIZE else split_chunks (N.to_nat 8192) 64 buf.
 
+
+(* ------------------------------------------------------------------ part 6: prover-side history containers (fastssz)
+   history/types.go + types_encoding.go: BlockHeaderWithProof (package history; same generated code and limits as
+   types/history.BlockHeaderWithProof: enc_HeaderWithProof / dec_HeaderWithProof above), SSZProof, MasterAccumulator *)
+Definition L_Witnesses : N := 65536.
+Definition L_HistoricalEpochs : N := 1897.
+
+(* SSZProof : Leaf []byte ssz-size:"32", Witnesses [][]byte ssz-max:"65536,32" ssz-size:"?,32" *)
+Definition enc_SSZProof (v : bytes * list bytes) : res bytes :=
+  let '(leaf, ws) := v in
+  bind (enc_bytes_exact 32 leaf) (fun l =>
+  let dst := l ++ u32_enc 36 in
+  if L_Witnesses <? nlen ws then Err E_LISTBIG
+  else bind (vec_items 32 ws) (fun w => Ok (dst ++ w))).
+Definition dec_SSZProof (buf : bytes) : res (bytes * list bytes) :=
+  let size := nlen buf in
+  if size <? 36 then Err E_SIZE
+  else
+    bind (slice buf 0 32) (fun leaf =>
+    bind (read_offset_at buf 32) (fun o1 =>
+    if size <? o1 then Err E_OFFSET
+    else if negb (o1 =? 36) then Err E_VAROFF
+    else
+      bind (tail_from buf o1) (fun t =>
+      bind (divide_int2 (nlen t) 32 L_Witnesses) (fun num =>
+      bind (split_chunks (N.to_nat num) 32 t) (fun ws => Ok (leaf, ws)))))).
+
+(* MasterAccumulator : HistoricalEpochs [][]byte ssz-max:"1897,32" ssz-size:"?,32" *)
+Definition enc_MasterAcc (v : list bytes) : res bytes :=
+  let dst := u32_enc 4 in
+  if L_HistoricalEpochs <? nlen v then Err E_LISTBIG
+  else bind (vec_items 32 v) (fun w => Ok (dst ++ w)).
+Definition dec_MasterAcc (buf : bytes) : res (list bytes) :=
+  let size := nlen buf in
+  if size <? 4 then Err E_SIZE
+  else
+    bind (read_offset_at buf 0) (fun o0 =>
+    if size <? o0 then Err E_OFFSET
+    else if negb (o0 =? 4) then Err E_VAROFF
+    else
+      bind (tail_from buf o0) (fun t =>
+      bind (divide_int2 (nlen t) 32 L_HistoricalEpochs) (fun num =>
+      split_chunks (N.to_nat num) 32 t))).
+
 (* ------------------------------------------------------------------ what the code does today *)
 (* As found: false / false / true.  The values below are those of the tree with fixes/C14-*.diff applied. *)
 Definition code_strict_zero_offset : bool := true.    (* false: dec_dyn_list accepts 00000000 as the empty list *)
@@ -446,7 +490,8 @@ Inductive ty : Type :=
 | THashesAcc | TProofRoots | TProofCapella | TProofDeneb | THeaderWithProof | TFindEphKey | TEphPayload | TOfferEphKey
 | TOfferEphHeader | TReceipts | THeaderRecord
 | TLcUpdateKey | TLcBootstrapKey | TLcFinalityKey | TLcOptimisticKey
-| TBodyLegacy | TBodyShanghai | TEpochAcc.
+| TBodyLegacy | TBodyShanghai | TEpochAcc
+| THeaderWithProofH | TSSZProof | TMasterAcc.
 
 Definition schema (t : ty) : list kind :=
   match t with
@@ -477,6 +522,9 @@ Definition schema (t : ty) : list kind :=
   | TBodyLegacy => [KL; KB]
   | TBodyShanghai => [KL; KB; KL]
   | TEpochAcc => [KL]
+  | THeaderWithProofH => [KB; KB]
+  | TSSZProof => [KB; KL]
+  | TMasterAcc => [KL]
   end.
 
 Definition rmap {A B} (f : A -> B) (r : res A) : res B := bind r (fun a => Ok (f a)).
@@ -517,6 +565,9 @@ Definition enc_any (t : ty) (fs : list field) : res bytes :=
   | TBodyLegacy, [FL t; FB u] => enc_BodyLegacy (t, u)
   | TBodyShanghai, [FL t; FB u; FL w] => enc_BodyShanghai (t, u, w)
   | TEpochAcc, [FL l] => enc_EpochAcc l
+  | THeaderWithProofH, [FB h; FB p] => enc_HeaderWithProof (h, p)
+  | TSSZProof, [FB l; FL w] => enc_SSZProof (l, w)
+  | TMasterAcc, [FL l] => enc_MasterAcc l
   | _, _ => Err E_SHAPE
   end.
 
@@ -558,6 +609,9 @@ Definition dec_any (zs fs rej : bool) (t : ty) (b : bytes) : res (list field) :=
   | TBodyLegacy => rmap (fun '(t, u) => [FL t; FB u]) (dec_BodyLegacy zs b)
   | TBodyShanghai => rmap (fun '(t, u, w) => [FL t; FB u; FL w]) (dec_BodyShanghai zs b)
   | TEpochAcc => rmap (fun l => [FL l]) (dec_EpochAcc b)
+  | THeaderWithProofH => rmap (fun '(h, p) => [FB h; FB p]) (dec_HeaderWithProof b)
+  | TSSZProof => rmap (fun '(l, w) => [FB l; FL w]) (dec_SSZProof b)
+  | TMasterAcc => rmap (fun l => [FL l]) (dec_MasterAcc b)
   end.
 
 (* the decoder the code has today *)
@@ -612,6 +666,9 @@ Definition limits_any (t : ty) (fs : list field) : list bool :=
   | TBodyShanghai, [FL t; FB u; FL w] =>
       [(nlen t <=? L_Txs) && all_len_le L_Tx t; len_le L_Uncles u; (nlen w <=? L_Withdrawals) && all_len_le L_Withdrawal w]
   | TEpochAcc, [FL l] => [(nlen l =? 8192) && all_len_eq 64 l]
+  | THeaderWithProofH, [FB h; FB p] => [len_le L_Header h; len_le L_HeaderProof p]
+  | TSSZProof, [FB l; FL w] => [nlen l =? 32; (nlen w <=? L_Witnesses) && all_len_eq 32 w]
+  | TMasterAcc, [FL l] => [(nlen l <=? L_HistoricalEpochs) && all_len_eq 32 l]
   | _, _ => [false]
   end.
 
